@@ -236,8 +236,7 @@ End Oracle.
 
 (* geometry of the metainfo of a blob (what core.NewMetaInfo produces, C02) *)
 Definition geometry_ok (c : cfg) (blob : list N) : bool :=
-  Nat.ltb 0 (c_pl c) && Nat.eqb (c_len c) (length blob) &&
-  Nat.eqb (npieces c) (count_pieces (c_pl c) (length blob)).
+  wf_cfg c && Nat.eqb (c_len c) (length blob).
 
 Definition C03_check (c : cfg) (blob : list N) (ws : list winput) (os : list obs) (fo : obs) (f : fin) : bool :=
   if geometry_ok c blob && guards c blob ws
